@@ -1902,3 +1902,42 @@ package formula
 //@           invariant forall a int, i int :: 0 <= a && a < len(result) && rangeindex < i && i < len(fields) ==> fields[i] != result[a]
 //@           invariant nodup(result)
 //@           decreases len(fields) - rangeindex
+
+// ---------------------------------------------------------------------------
+// Public mutators that nothing in the package calls (C08, C09): each writes exactly the
+// field it names. No evaluator or analysis function has a tree field in its frame, so a call
+// of one of these from there fails a frame obligation.
+// ---------------------------------------------------------------------------
+
+//@ func (*node).SetID
+//@   tags [C08,C09]
+//@   requires n != nil
+//@   assigns n.id
+//@   panics never
+//@   noalloc
+
+//@ func (*node).SetParent
+//@   tags [C08,C09]
+//@   requires n != nil
+//@   assigns n.parent
+//@   panics never
+//@   noalloc
+
+//@ func (*Scanner).SetOnError
+//@   tags [C08,C09]
+//@   requires s != nil
+//@   assigns s.onError
+//@   panics never
+//@   noalloc
+
+// Exported position helpers outside every property: frame only (they may panic on
+// out-of-range lines, which is their documented behaviour).
+//@ func GetPositionFromLineAndCharacter
+//@   tags [C08,C09]
+//@   loop 1: invariant true
+//@           decreases character
+
+//@ func GetFilePositionFromLineAndCharacter
+//@   tags [C08,C09]
+//@   requires file != nil && (len(file.LineStarts) > 0 ==> starts(file.LineStarts, len(file.Text)))
+//@   assigns file.LineStarts
